@@ -16,7 +16,9 @@ ASSUMPTIONS = [
     "keep-delete (23 h) exceeds backup duration PLUS the time a prune needs between planning and writing its index (see known finding)",
     "non-instant prune only",
 ]
-RULE = ("op lines `c10 mon <bp|pb|bb> seed,k`: state = 3 backups of an evolving source, one snapshot forgotten and pruned two keep-delete periods ago (marked packs "
+RULE = ("op lines `c10 mon bfp seed,k,code`: a backup parked after its index load / before its k-th storage operation while the newest or all snapshots are forgotten "
+        "and one or two prunes run (pure-reuse backups that add no blob, prune keeping nothing, plan times beyond keep-delete after pack creation; all 24 combinations "
+        "per round); op lines `c10 mon <bp|pb|bb> seed,k[,j]`: state = 3 backups of an evolving source, one snapshot forgotten and pruned two keep-delete periods ago (marked packs "
         "that the concurrent prune deletes), another forgotten just before; A in {backup of a version sharing content with the forgotten snapshots, prune}, "
         "parked before its k-th storage operation; B runs fully, or (seed,k,j) on a gated thread up to its j-th operation where it waits for A to finish; then follow-up prune one hour later + check(read_data) + read back of all snapshots. "
         "The interleaved trace (embedded at generation time) is judged by the Lean driver after every prefix. `c10 slowprune` replays theorem slow_prune_can_lose.")
